@@ -656,11 +656,27 @@ func VerdictC18(h *History) string {
 			exported[it.ID] = true
 		}
 	}
-	if h.ShutdownReturned {
+	anyEnded := false
+	for _, g := range h.Groups {
+		if g.Cancelled || (g.DeadlineAt > 0 && len(h.Snaps) > 0 && g.DeadlineAt <= h.Snaps[len(h.Snaps)-1].At) {
+			anyEnded = true
+		}
+	}
+	if h.ShutdownReturned || anyEnded {
+		// after the cleanup phase (every export released, Shutdown called) the
+		// items of a caller whose context is alive must have been exported and
+		// the caller answered - whatever happened to other callers' contexts
 		for id, r := range h.Owner {
 			c := h.Callers[r]
 			if c.Started && !h.refused(c) && !h.ctxEverEnded(r) && !exported[id] {
-				return fmt.Sprintf("item %q of request %d (context alive) was never exported", id, r)
+				return fmt.Sprintf("item %q of request %d (context alive) was never exported (skipped); another caller's context had ended: %v", id, r, anyEnded)
+			}
+		}
+	}
+	if anyEnded {
+		for _, c := range h.Callers {
+			if c.Started && !c.Done && !h.ctxEverEnded(c.Req) {
+				return fmt.Sprintf("request %d (context alive) was never answered after another caller's context ended:\n%s", c.Req, h.Stacks)
 			}
 		}
 	}
